@@ -902,7 +902,33 @@ class Generator(TreeListener):
                         sl = sl - 1
                     elif isinstance(sl, slice):
                         # Modelica indexing starts from one;  Python from zero.
-                        sl = slice(None if sl.start is None else sl.start - 1, sl.stop, sl.step)
+                        start = 1 if sl.start is None else sl.start
+                        stop = dim if sl.stop is None else sl.stop
+                        step = 1 if sl.step is None else sl.step
+                        if all(isinstance(v, int) for v in (start, stop, step)) and step > 0:
+                            selected = range(start, stop + 1, step)
+                            if len(selected) == 0:
+                                # Modelica: a range with stop < start is empty
+                                sl = slice(0, 0, 1)
+                            elif selected[0] < 1 or selected[-1] > dim:
+                                symbol_name = (
+                                    s.name()
+                                    if len(tree.indices) == 1
+                                    else s.name().split(".")[i] + " in nested symbol " + s.name()
+                                )
+                                raise ValueError(
+                                    "Slice {}:{} of symbol {} is out of bounds. "
+                                    "Indices should be in range [1,{}] "
+                                    "(Modelica uses 1-based indexing).".format(
+                                        start, stop, symbol_name, dim
+                                    )
+                                )
+                            else:
+                                sl = slice(start - 1, selected[-1], step)
+                        else:
+                            sl = slice(
+                                None if sl.start is None else sl.start - 1, sl.stop, sl.step
+                            )
                     else:
                         for_loop = self.for_loops[-1]
 
